@@ -11,6 +11,7 @@ import (
 	"path/filepath"
 	"sort"
 	"strings"
+	"time"
 
 	"github.com/google/wuffs/lang/parse"
 	"github.com/google/wuffs/lang/render"
@@ -56,6 +57,9 @@ func numValue(s string) *big.Int {
 		case 'b', 'B':
 			base, s = 2, s[2:]
 		}
+	}
+	if s == "" && base != 10 {
+		return new(big.Int) // "0x" / "0B": a prefix without digits is a token; it has no digit to change
 	}
 	v, ok := new(big.Int).SetString(s, base)
 	if !ok {
@@ -112,6 +116,9 @@ func childWuffs(req [][]byte) [][]byte {
 	tm2 := &t.Map{}
 	tokens2, comments2, err := t.Tokenize(tm2, "f.wuffs", out)
 	if err != nil {
+		if strings.Contains(err.Error(), "too many lines") {
+			return fail("retok:too-many-lines", "token.Tokenize(render output): "+err.Error())
+		}
 		return fail("retok:output-does-not-tokenize", "token.Tokenize(render output): "+err.Error())
 	}
 	a, b := items(tm, tokens, comments), items(tm2, tokens2, comments2)
@@ -318,12 +325,54 @@ func regroup(rnd *hlib.Rand, s string) string {
 	return b.String()
 }
 
+// thresholdNum: a numeric literal where the tokenizer's rules bite: a leading zero kept apart
+// from more digits by an underscore ("0_1": without the underscore it is the rejected legacy
+// octal "01"), and literals whose text, or whose re-grouped text (one more byte per 6 decimal /
+// 4 hex or binary digits), is about maxTokenSize = 1023 bytes long.
+func thresholdNum(rnd *hlib.Rand) string {
+	digits := func(set string, n int) string {
+		var b strings.Builder
+		for i := 0; i < n; i++ {
+			c := set[rnd.Intn(len(set))]
+			if i == 0 && c == '0' {
+				c = '1'
+			}
+			b.WriteByte(c)
+		}
+		return b.String()
+	}
+	switch rnd.Intn(8) {
+	case 0:
+		return "0_" + digits("0123456789", rnd.Range(1, 8))
+	case 1:
+		return "0_0" + []string{"", "_0", "_1_2"}[rnd.Intn(3)]
+	case 2: // decimal: n + (n-1)/6 crosses 1023 at n = 877 / 878
+		return digits("0123456789", rnd.Range(874, 881))
+	case 3: // hex: 2 + n + (n-1)/4 crosses 1023 at n = 817 / 818
+		return []string{"0x", "0X"}[rnd.Intn(2)] + digits("0123456789abcdefABCDEF", rnd.Range(814, 821))
+	case 4:
+		return []string{"0b", "0B"}[rnd.Intn(2)] + digits("01", rnd.Range(814, 821))
+	case 5: // as long as a token may be (and one more: rejected by the tokenizer)
+		return digits("0123456789", rnd.Range(1020, 1024))
+	case 6:
+		return "0x" + digits("0123456789abcdef", rnd.Range(1018, 1022))
+	default: // maximal raw length, mostly underscores: the re-grouped text is shorter
+		var b strings.Builder
+		for b.Len() < 1021 {
+			b.WriteString(digits("123456789", 1))
+			b.WriteByte('_')
+		}
+		b.WriteString("7")
+		return b.String()
+	}
+}
+
 // perturb applies a few token-preserving (in intent) edits to a source.
 func perturb(rnd *hlib.Rand, src []byte, r *hlib.Run) []byte {
 	ls := wlex(src)
 	nEdits := rnd.Range(1, 4)
 	for e := 0; e < nEdits; e++ {
-		kind := rnd.Intn(11)
+		kind := rnd.Intn(12)
 		r.Count(fmt.Sprintf("wuffs:perturb:%d", kind))
 		var out []lexeme
 		lineStart := true
@@ -409,6 +458,10 @@ func perturb(rnd *hlib.Rand, src []byte, r *hlib.Run) []byte {
 				if l.kind == lxWord && '0' <= l.text[0] && l.text[0] <= '9' && p(1, 2) {
 					l.text = regroup(rnd, l.text)
 				}
+			case 11: // numeric literals at the tokenizer's thresholds (leading "0_", maximal length)
+				if l.kind == lxWord && '0' <= l.text[0] && l.text[0] <= '9' && p(1, 3) {
+					l.text = thresholdNum(rnd)
+				}
 			}
 			out = append(out, l)
 			if l.kind == lxNl {
@@ -481,6 +534,10 @@ var handWritten = []string{
 	"",
 	"\n\n",
 	"pub const X : base.u32 = 00x1\n",
+	"pub const X : base.u32 = 0_1\npub const Y : base.u32 = 0_0\npub const Z : base.u32 = 0X\n",
+	"pub const X : base.u32 = " + strings.Repeat("1", 877) + "\npub const Y : base.u32 = " + strings.Repeat("2", 878) + "\n",
+	"pub const X : base.u32 = 0X" + strings.Repeat("a", 817) + "\npub const Y : base.u32 = 0x" + strings.Repeat("b", 818) + "\npub const Y : base.u32 = 0B" + strings.Repeat("1", 818) + "\n",
+	"pub const X : base.u32 = " + strings.Repeat("9", 1023) + "\n",
 	"pub const X : base.u32 = 1234567\npub const YY : base.u32 = 0xabcdef0123\n// c\npub const Z : base.u32 = 0b1\n",
 }
 
@@ -489,9 +546,35 @@ type wcase struct {
 	origin string
 }
 
+// maxLinesSource: as many lines as the tokenizer allows (maxLine = 1048575), none of them blank,
+// the last one ended by an explicit ";" instead of a newline.  The formatter accepts it; its
+// output ends with a newline, which token.Tokenize counts as one line too many.
+const maxLinesDesc = "1048574 lines `use \"x\"` and a last line `use \"x\";` without a newline (python3 -c 'import sys; sys.stdout.write(\"use \\\"x\\\"\\n\"*1048574 + \"use \\\"x\\\";\")' | wuffsfmt | wuffsfmt)"
+
+func maxLinesSource() []byte {
+	const maxLine = 1048575
+	var b bytes.Buffer
+	for i := 0; i < maxLine-1; i++ {
+		b.WriteString("use \"x\"\n")
+	}
+	b.WriteString("use \"x\";")
+	return b.Bytes()
+}
+
 func runWuffs(r *hlib.Run) {
 	initPunct()
 	rnd := r.Rand.Fork()
+	// the one huge case runs beside the others, on a worker of its own with a long watchdog;
+	// if the machine is too busy for it, it is skipped and counted, not failed
+	maxLinesCh := make(chan [][]byte, 1)
+	go func() {
+		var w *worker
+		resp := callT(&w, 15*time.Minute, []byte("W"), maxLinesSource())
+		if w != nil {
+			w.kill()
+		}
+		maxLinesCh <- resp
+	}()
 	var files []string
 	for _, pat := range []string{"std/*/*.wuffs", "test/*.wuffs", "hello-wuffs-c/*.wuffs", "lang/*/*.wuffs", "test/data/*.wuffs"} {
 		m, _ := filepath.Glob(filepath.Join(r.Repo, pat))
@@ -623,6 +706,15 @@ func runWuffs(r *hlib.Run) {
 			}
 			failK(r, key, string(resp[3]), replay)
 		}
+	}
+	if resp := <-maxLinesCh; string(resp[0]) == "ok" {
+		accepted++
+		r.Count("wuffs:max-lines:accepted")
+		if len(resp) >= 4 && len(resp[2]) > 0 {
+			failK(r, string(resp[2]), string(resp[3]), "wuffsfmt-generated "+maxLinesDesc)
+		}
+	} else {
+		r.Count("wuffs:max-lines:" + string(resp[0]))
 	}
 	r.Extra("wuffs_oracle_cases", accepted)
 	totalOracleCases += accepted
